@@ -518,7 +518,7 @@ func runC02(t gen.Tier, r *gen.Rng, rep *Reporter) {
 			}
 		}
 	}
-	for _, l := range c02Directed {
+	for _, l := range append(append([]string{}, c02Directed...), c02WideNumerals()...) {
 		linesMsg(nil, checkRepack)([]string{l}, rep)
 	}
 	emitDist(rep, g)
@@ -531,6 +531,37 @@ var c02Directed = []string{
 	"M m(p(s,4,ascii,ascii.F,nil,d),bm(8,binary,binary.F,1),f(2,c(4,ascii.F,t(0,-,nil,str,0,-),sub(1,p(n,9,ascii,ascii.1,nil,d))))) unpack 30313030400000000000000033303037",
 	"M m(p(s,4,ascii,ascii.F,nil,d),bm(8,binary,binary.F,1),f(2,c(9,ascii.F,t(2,ascii,nil,str,1,ascii.2),sub(01,p(s,5,ascii,ascii.1,nil,d))))) unpack 30313030400000000000000030313141393930315a",
 	"M m(p(s,4,ascii,ascii.F,nil,d),bm(8,binary,binary.F,1),f(2,c(0,ascii.2,t(0,-,nil,str,0,-),sub(1,p(s,0,ascii,ascii.F,nil,d))))) unpack 3031303040000000000000003030",
+}
+
+// wide numerals: Numeric fields of 19 / 20 digits with wire digits around the int64 / uint64
+// limits (what is accepted must re-pack; what does not fit an int64 must be rejected)
+func c02WideNumerals() []string {
+	var out []string
+	head := "3031303040000000000000" // "0100" + bitmap with bit 2 (hex of the wire prefix is built below)
+	_ = head
+	for _, digits := range []string{"9223372036854775807", "9223372036854775808", "9999999999999999999",
+		"18446744073709551615", "18446744073709551616", "09223372036854775807", "00000000000000000001"} {
+		for _, spec := range []string{
+			fmt.Sprintf("p(n,%d,ascii,ascii.F,L30,d)", len(digits)),
+			"p(n,20,ascii,ascii.2,nil,d)",
+			fmt.Sprintf("p(n,%d,ebcdic,ebcdic.F,L30,d)", len(digits)),
+		} {
+			body := []byte(digits)
+			if strings.Contains(spec, "ebcdic") {
+				body = make([]byte, len(digits))
+				for i, c := range []byte(digits) {
+					body[i] = 0xF0 + (c - '0')
+				}
+			}
+			wire := append([]byte("0100"), 0x40, 0, 0, 0, 0, 0, 0, 0)
+			if strings.Contains(spec, "ascii.2") {
+				wire = append(wire, []byte(fmt.Sprintf("%02d", len(digits)))...)
+			}
+			wire = append(wire, body...)
+			out = append(out, fmt.Sprintf("M m(p(s,4,ascii,ascii.F,nil,d),bm(8,binary,binary.F,1),f(2,%s)) unpack %s", spec, impl.Hex(wire)))
+		}
+	}
+	return out
 }
 
 // stripVarPads returns the spec with the padder removed from every variable-length primitive
